@@ -78,6 +78,11 @@ func (k Keeper) RecvPacket(ctx sdk.Context, msg *types.MsgRecvPacket) error {
 	if err := k.ValidatePacket(ctx, &packet); err != nil {
 		return sdkerrors.Wrap(err, "packet failed basic validation")
 	}
+	// a packet sent by this chain is never received by it: its commitment is this chain's own
+	// send record and must not be re-created or overwritten by a receive
+	if packet.GetSrcChain() == k.clientKeeper.GetChainName(ctx) {
+		return sdkerrors.Wrap(types.ErrInvalidPacket, "cannot receive a packet sent by this chain")
+	}
 	// check if the packet receipt has been received already
 	if _, found := k.GetPacketReceipt(ctx, packet.GetSrcChain(), packet.GetDstChain(), packet.GetSequence()); found {
 		return sdkerrors.Wrapf(
